@@ -93,7 +93,7 @@ func (e *Engine) newInterp() (*Interp, error) {
 	tb := NewTB()
 	in := &Interp{prog: e.prog, tb: tb, cfg: e.cfg, fset: e.prog.Fset, coapPkgs: e.coapPkgs,
 		satCache: map[*Term]SatResult{}, enumCache: map[[2]int][]uint64{}, funcsSeen: map[*ssa.Function]int{},
-		stubsUsed: map[string]int{}, params: e.params, knownIDs: e.knownIDs, mathConst: e.mathC}
+		stubsUsed: map[string]int{}, pureCache: map[string]Value{}, qsites: map[string]int{}, unsatUnder: map[*Term][]*Term{}, params: e.params, knownIDs: e.knownIDs, mathConst: e.mathC}
 	sol, err := NewSolver(e.cfg.Solver, tb, e.cfg.TimeoutMs)
 	if err != nil {
 		return nil, err
@@ -273,6 +273,9 @@ func (e *Engine) Explore(fn *ssa.Function) (*HarnessStats, error) {
 			}
 			for s, n := range in.stubsUsed {
 				st.Stubs[s] += n
+			}
+			for k, v := range in.qsites {
+				st.Notes["site:Q "+k] += v
 			}
 			st.SolverQ += in.sol.Queries
 			st.SolverT += in.sol.Time
